@@ -53,3 +53,74 @@ def apply_op(op, c):
     if op is operator.eq:
         return c == 0
     return c != 0
+
+
+# --- uninterpreted stdlib / tokeniser symbols shared by code and spec -------------------------
+@REG.spec([Str], Str, uninterpreted='py_strip')
+def strip(s):
+    return s.strip()
+
+
+@REG.spec([Str], SeqIS, uninterpreted='version_toks')
+def toks(s):
+    """tokenisation of a version string: maximal digit runs -> int, maximal [a-zA-Z] runs -> str.
+    Uninterpreted in proofs (assumed contract of Version.__init__); checked bounded against spec_toks."""
+    return spec_toks(s)
+
+
+def spec_toks(s):
+    out = []
+    i = 0
+    n = len(s)
+    while i < n:
+        ch = s[i]
+        if ch.isdecimal():                       # \d is Unicode category Nd for str patterns
+            j = i
+            while j < n and s[j].isdecimal():
+                j += 1
+            out.append(int(s[i:j]))
+            i = j
+        elif ('a' <= ch <= 'z') or ('A' <= ch <= 'Z'):
+            j = i
+            while j < n and (('a' <= s[j] <= 'z') or ('A' <= s[j] <= 'Z')):
+                j += 1
+            out.append(s[i:j])
+            i = j
+        else:
+            i += 1
+    return tuple(out)
+
+
+@REG.spec([Str], CMP6, opaque=True)
+def op_of(s):
+    """documented prefix table, longest prefix first; no prefix means equality"""
+    if s.startswith('>='):
+        return operator.ge
+    if s.startswith('<='):
+        return operator.le
+    if s.startswith('!='):
+        return operator.ne
+    if s.startswith('=='):
+        return operator.eq
+    if s.startswith('='):
+        return operator.eq
+    if s.startswith('>'):
+        return operator.gt
+    if s.startswith('<'):
+        return operator.lt
+    return operator.eq
+
+
+@REG.spec([Str], Str, opaque=True)
+def rest_of(s):
+    if s.startswith('>=') or s.startswith('<=') or s.startswith('!=') or s.startswith('=='):
+        return strip(s[2:])
+    if s.startswith('=') or s.startswith('>') or s.startswith('<'):
+        return strip(s[1:])
+    return strip(s)
+
+
+@REG.spec([Str, Str], Bool)
+def holds(v, cond):
+    """a version string satisfies one constraint"""
+    return apply_op(op_of(cond), vcmp(toks(v), toks(rest_of(cond)), 0))
